@@ -53,6 +53,14 @@ Proof.
   - eexists; eexists; split; reflexivity.
 Qed.
 
+Lemma span_pr_uint u : span_digits (pr_uint u) = pr_uint u.
+Proof. induction u; simpl; try rewrite IHu; reflexivity. Qed.
+Lemma parse_digits_pr u : u <> Nil -> parse_digits (pr_uint u) = Some (Z.of_uint u).
+Proof.
+  intros Hu. unfold parse_digits. rewrite span_pr_uint.
+  destruct (pr_uint_cons u Hu) as (c & r & E & _). rewrite E, <- E, rd_uint_pr. reflexivity.
+Qed.
+
 Lemma parse_print_Z z : parse_Z (print_Z z) = Some z.
 Proof.
   unfold print_Z. destruct z as [|p|p]; [reflexivity| |].
@@ -65,11 +73,11 @@ Proof.
     assert (Hp : Ascii.eqb c "+" = false).
     { apply digc_numc in Hc. unfold numc in Hc. apply andb_prop in Hc. destruct Hc as [_ Hc].
       destruct (Ascii.eqb c "+"); simpl in Hc; congruence. }
-    rewrite Hm, Hp, <- E, rd_uint_pr. simpl. f_equal.
+    rewrite Hm, Hp, <- E, parse_digits_pr by apply Unsigned.to_uint_nonnil. f_equal.
     change (Z.of_int (Z.to_int (Zpos p)) = Zpos p). apply DecimalZ.of_to.
   - simpl Z.to_int. simpl pr_int. unfold parse_Z.
-    destruct (pr_uint_cons (Pos.to_uint p) (Unsigned.to_uint_nonnil p)) as (c & r & E & Hc).
-    change (Ascii.eqb "-" "-") with true. cbv iota. rewrite E, <- E, rd_uint_pr. simpl. f_equal.
+    change (Ascii.eqb "-" "-") with true. cbv iota. rewrite parse_digits_pr by apply Unsigned.to_uint_nonnil.
+    simpl option_map. f_equal.
     change (Z.of_int (Z.to_int (Zneg p)) = Zneg p). apply DecimalZ.of_to.
 Qed.
 
